@@ -253,6 +253,9 @@ func (r *runner) doStep(st Step) {
 		r.nconn++
 		name := fmt.Sprintf("k%d", r.nconn)
 		ch := vh.NewVChan(name, r.rec, false)
+		if r.nconn%3 == 2 { // every third connection complains when it is closed (after closing): nothing else changes
+			ch.FailClose(errors.New("transport: error while closing"))
+		}
 		r.byName[name] = ch
 		if st.Kind == "cancelafter" { // the context ends after this connection has been handed over, before Loop asks for the next one
 			r.acc.cancelAfter.Store(true)
